@@ -384,6 +384,18 @@ impl Model {
             return;
         }
 
+        // the store was ignored (old value kept): that is a C01 matter ("last store wins"),
+        // nothing was stored, so there is nothing to explain
+        if existed {
+            if let Some((t, _)) = after.entries.get(key) {
+                if *t != tag && *t == before[key].tag && after_keys == before_keys {
+                    info.findings.push(Finding { clause: "stale-store", expected: format!("{key:?} holds the new value tag {tag:x}"), observed: format!("the store was ignored, it still holds tag {t:x}") });
+                    self.adopt(after, now_ns, None, info);
+                    return;
+                }
+            }
+        }
+
         // --- explanation search ---
         let mut residents = before.clone();
         residents.remove(key);
